@@ -126,10 +126,24 @@ def http_defined_host(flight):
     return hosts[0].decode("latin-1")
 
 
+def refragment(hello, splits):
+    """the same ClientHello handshake message carried in len(splits)+1 TLS records (RFC 8446 5.1: handshake messages
+    may be fragmented over several records); -> (bytes, offsets of the record boundaries)"""
+    ver, msg = hello[1:3], hello[5:]
+    out, bounds, prev = b"", [], 0
+    for c in list(splits) + [len(msg)]:
+        piece = msg[prev:c]
+        prev = c
+        out += b"\x16" + ver + len(piece).to_bytes(2, "big") + piece
+        bounds.append(len(out))
+    return out, bounds[:-1]
+
+
 def flight_bytes(case):
     fl = case["flight"]
     if fl == "tls":
-        return stacks.client_hello(host_of(case["name"]))
+        hello = stacks.client_hello(host_of(case["name"]))
+        return refragment(hello, case["frag"])[0] if case.get("frag") else hello
     if fl == "http":
         return http_flight(case["name"], case["syntax"])
     if fl == "opaque":
@@ -258,6 +272,27 @@ def segmented_bases(thorough):
     return out
 
 
+def fragmented_cases(thorough):
+    """TLS *record* fragmentation of the ClientHello (independent of TCP segmentation): every split of the handshake
+    message over two records (thorough) / at the zone offsets (quick), and over three records at pairs of zone offsets,
+    including last fragments of 1-3 bytes.  Each is delivered in one segment and one record per segment."""
+    out = []
+    for stack, addr in STACKS:
+        for rules, names in (("ign_name", ("match", "other")), ("allow_name", ("match", "other")), (ADDON_IGNORE, ("match",))):
+            for name in names:
+                hello = stacks.client_hello(host_of(name))
+                n = len(hello) - 5
+                s = hello.find(host_of(name).encode()) - 5
+                z2 = sorted({p for p in (1, 2, 3, 4, 5, 6, s - 1, s, s + 4, n // 2, n - 5, n - 4, n - 3, n - 2, n - 1) if 0 < p < n})
+                z3 = sorted({p for p in (1, 3, 4, s, n - 4, n - 3, n - 2, n - 1) if 0 < p < n})
+                frags = [(p,) for p in (range(1, n) if thorough else z2)]
+                frags += list(itertools.combinations(z2 if thorough else z3, 2))
+                for fr in frags:
+                    out.append({"stack": stack, "addr": addr, "rules": rules, "strategy": "eager", "flight": "tls", "name": name,
+                                "syntax": "-", "frag": list(fr)})
+    return out
+
+
 # ------------------------------------------------------------------ one run
 def setup(case):
     """-> (mode string, world kwargs, bytes to send first, expected reply prefix to the client)"""
@@ -375,6 +410,10 @@ def features(case, flight, cuts, excluded, cands):
          "first_cut": first_cut_zone(case, flight, cuts)}
     if case["flight"] == "http":
         f["line_end"] = "lf" if case["syntax"] == "bare_lf" else "crlf"
+    if case["flight"] == "tls":
+        fr = case.get("frag") or []
+        f["tls_records"] = len(fr) + 1
+        f["last_fragment"] = "whole" if not fr else ("under-4-bytes" if len(flight) - 5 * (len(fr) + 1) - fr[-1] < 4 else "4-bytes-or-more")
     return f
 
 
@@ -450,6 +489,9 @@ def work_items(thorough):
         cs = cut_sets(c, flight_bytes(c), thorough)
         for i in range(0, len(cs), per):
             items.append((c, cs[i:i + per]))
+    for c in fragmented_cases(thorough):
+        bounds = refragment(stacks.client_hello(host_of(c["name"])), c["frag"])[1]
+        items.append((c, [(), tuple(bounds)]))
     return items
 
 
@@ -469,6 +511,8 @@ def run(ctx):
     ctx.bounds = {
         "stacks": ["%s/%s" % s for s in STACKS], "rules": {k: v for k, v in RULES.items()}, "flights": ["tls(sni match/other/none)", "http(host match/other) x syntax", "opaque", "server_first"],
         "http_syntax": HTTP_SYNTAX, "strategies": ["eager", "lazy"], "runs": runs,
+        "tls_record_fragmentation": ("ClientHello over 2 records at every offset, over 3 records at every pair of 15 zone offsets" if ctx.thorough
+                                     else "ClientHello over 2 records at 15 zone offsets (record start, SNI, last 1-5 bytes), over 3 records at every pair of 8 zone offsets") + "; one segment and one record per segment",
         "segmentation": ("every single cut, 1-byte segments, every pair of zone cuts (request line, Host line, record header, SNI, tail)" if ctx.thorough
                          else "every single cut (HTTP) / zone cuts (TLS), 1-byte segments, pairs of the first zone cuts"),
     }
